@@ -44,6 +44,7 @@ TRUSTED = ["hand-written mirrors coq/Chain/Generator.v, Rom.v tied to run_block_
            "harness re-performs the interpreter calls of a case to record the oracle table (clvmr run_program is not hookable)"]
 
 PENDING = {"F-C07-2": "interned-storage-cost"}
+HEAVY_TIMEOUT = 600         # seconds per corpus block run alone through the implementation-level oracle (else: unchecked)
 
 
 def listed_ids():
@@ -75,6 +76,7 @@ def flag_class(fl):
 
 def run_both(rep, name, cases, env, have_model):
     G.tables(cases)
+    cases[:] = G.with_table(rep, name, cases)
     lines = [G.both_line(c, env.consts_hex) for c in cases]
     impl = G.vh(lines)
     model = G.vrun(lines) if have_model else [None] * len(lines)
@@ -85,6 +87,8 @@ def run_both(rep, name, cases, env, have_model):
     for c, b, i, m in zip(cases, base, impl, model):
         f = G.split3(i)
         c["impl"] = f
+        if G.unchecked(rep, name, b, i, m if have_model else None):
+            continue
         if len(f) != 3:
             rep.add_failure(name, b, i, m, "implementation side did not answer (panic / crash)")
             continue
@@ -117,10 +121,18 @@ def oracle(rep, cases, listed):
             strict = False
         lines.append("gen.oracle07 %d %d %s %s%s" % (c["flags"], c["max_cost"], G.hexo(c["program"]), G.refs_tok(c["refs"]),
                                                      "" if strict else " lenient"))
-    outs = G.vh(lines)
+    hv = [k for k, c in enumerate(cases) if c.get("heavy")]
+    lt = [k for k, c in enumerate(cases) if not c.get("heavy")]
+    outs = [None] * len(lines)
+    for k, o in zip(lt, G.vh([lines[k] for k in lt])):
+        outs[k] = o
+    for k, o in zip(hv, G.vh_heavy([lines[k] for k in hv], HEAVY_TIMEOUT)):
+        outs[k] = o
     from collections import Counter
     cl = Counter()
     for l, o in zip(lines, outs):
+        if G.unchecked(rep, "gen.oracle07", l, o):
+            continue
         cl[o.split(" legacy=")[0]] += 1
         if not o.startswith("OK"):
             rep.add_failure("gen.oracle07", l, o, "OK", "the two real generator paths disagree on this input (property C07 on the implementation)")
@@ -141,6 +153,8 @@ def oracle_sig(rep, cases):
     from collections import Counter
     cl = Counter()
     for l, o in zip(lines, outs):
+        if G.unchecked(rep, "gen.oracle07sig", l, o):
+            continue
         cl[" ".join(t for t in o.split(" ## ")[-1].split(" ") if not t.startswith("pairs=") or t == "pairs=0")[:120]] += 1
         if not o.startswith("OK"):
             rep.add_failure("gen.oracle07sig", l, o, "OK", "with signature validation enabled the two real generator paths disagree "
@@ -171,16 +185,20 @@ def run(ctx):
         rep.evaluations += 1
         return
 
-    n = int(os.environ.get("VERIF_GEN_N", "0")) or (120 if tier == "quick" else 3000)
+    # thorough tier: sized to finish in < 20 min on an unloaded 16-core machine (about 6x the quick tier's lines)
+    thorough = tier != "quick"
+    if thorough:
+        G.LINE_TIMEOUT = 1800
+    n = int(os.environ.get("VERIF_GEN_N", "0")) or (120 if tier == "quick" else 600)
     cases = []
     for k in range(n):
         cases.append(env.case(want_valid=(k % 2 == 0)))
     # every output-shape mutation, at every run
     for k in range(env.N_SHAPES):
-        for _ in range(2 if tier == "quick" else 40):
+        for _ in range(2 if tier == "quick" else 8):
             cases.append(env.shape_case(k))
     # SIMPLE_GENERATOR with block references (rejected by both paths since fix e4597dd2), on otherwise valid generators
-    for _ in range(6 if tier == "quick" else 120):
+    for _ in range(6 if tier == "quick" else 30):
         c = env.case(want_valid=True)
         c["flags"] |= F["SIMPLE_GENERATOR"]
         c["refs"] = [rng.bytes(rng.below(40))] + ([rng.bytes(3)] if rng.chance(1, 3) else [])
@@ -188,26 +206,34 @@ def run(ctx):
         cases.append(c)
     # non-canonical first bytes (every variant, at every run, with and without SIMPLE_GENERATOR): the byte-level
     # check_generator_quote must reject on BOTH paths what only the node-level check would accept
-    cases.extend(env.head_cases(per_head=2 if tier == "quick" else 20))
+    cases.extend(env.head_cases(per_head=2 if tier == "quick" else 5))
     # corpus
     impl_only = []
     for name, prog, refs, big in G.file_cases(tier, env):
-        for fl in ([F["DONT_VALIDATE_SIGNATURE"], env.mempool_mode | F["DONT_VALIDATE_SIGNATURE"]]
-                   if tier == "quick" or len(prog) > 100000 or name not in G.QUICK_FILES      # expensive programs: two flag sets
-                   else [F["DONT_VALIDATE_SIGNATURE"], env.mempool_mode | F["DONT_VALIDATE_SIGNATURE"],
-                         F["DONT_VALIDATE_SIGNATURE"] | F["COST_CONDITIONS"], F["DONT_VALIDATE_SIGNATURE"] | F["SIMPLE_GENERATOR"],
-                         F["DONT_VALIDATE_SIGNATURE"] | F["INTERNED_GENERATOR"] | F["COST_CONDITIONS"]]):
+        # model side: only the corpus files measured small AND cheap (G.QUICK_FILES; five flag sets in the thorough tier);
+        # every other file goes through the implementation-level oracle alone, one process per line with a time limit
+        cheap = name in G.QUICK_FILES and not big
+        if tier == "quick" or not cheap:
+            fls = [F["DONT_VALIDATE_SIGNATURE"]] + ([env.mempool_mode | F["DONT_VALIDATE_SIGNATURE"]] if tier == "quick" or len(prog) <= 100000 else [])
+        else:
+            fls = [F["DONT_VALIDATE_SIGNATURE"], env.mempool_mode | F["DONT_VALIDATE_SIGNATURE"],
+                   F["DONT_VALIDATE_SIGNATURE"] | F["COST_CONDITIONS"], F["DONT_VALIDATE_SIGNATURE"] | F["SIMPLE_GENERATOR"],
+                   F["DONT_VALIDATE_SIGNATURE"] | F["INTERNED_GENERATOR"] | F["COST_CONDITIONS"]]
+        for fl in fls:
             if name in ("aa-million-messages", "aa-million-message-spends"):
                 fl |= F["COST_CONDITIONS"]
-            (impl_only if big else cases).append({"program": prog, "refs": refs, "flags": fl, "max_cost": G.BLOCK, "kind": "file",
-                                                   "tags": [("file", name)]})
+            (cases if cheap else impl_only).append({"program": prog, "refs": refs, "flags": fl, "max_cost": G.BLOCK, "kind": "file",
+                                                    "tags": [("file", name)], "heavy": not cheap})
     # the spend-count limit: 6001 minimal spends (quoted), with and without LIMIT_SPENDS
     if tier != "quick":
         sp = [(i.to_bytes(32, "big"), (b"", (b"", (b"", b"")))) for i in range(6001)]
         from clvm import ser, to_list
         prog = ser((b"\x01", (to_list(sp), b"")))
         for fl in (F["DONT_VALIDATE_SIGNATURE"] | F["LIMIT_SPENDS"], F["DONT_VALIDATE_SIGNATURE"]):
-            cases.append({"program": prog, "refs": [], "flags": fl, "max_cost": G.BLOCK, "kind": "limit-spends", "tags": [("limit", "6001")]})
+            # implementation-level oracle only: through the model one such line (1.4 MB with its oracle table) costs many
+            # minutes and was the straggler of the thorough tier
+            impl_only.append({"program": prog, "refs": [], "flags": fl, "max_cost": G.BLOCK, "kind": "limit-spends", "tags": [("limit", "6001")],
+                              "heavy": True})
     # back-reference re-serialisations of a share of the programs
     pick = [c for c in cases if rng.chance(1, 4)]
     outs = G.vh(["gen.backrefs %s" % G.hexo(c["program"]) for c in pick])
@@ -243,15 +269,17 @@ def run(ctx):
         bc = 12000 * len(c["program"])
         pts.update([bc - 1, bc, bc + 20])
         pts = sorted(p for p in pts if p >= 0)
-        if tier == "quick":
-            rng.shuffle(pts)
-            pts = pts[:3]
+        rng.shuffle(pts)
+        pts = pts[:3] if tier == "quick" else pts[:4]
         for p in pts:
             d = dict(c)
             d["max_cost"] = p
             d["tags"] = c["tags"] + [("limit", "at-total")]
             d.pop("impl", None)
             lim.append(d)
+    if tier != "quick" and len(lim) > 1000:
+        rng.shuffle(lim)
+        lim = lim[:1000]
     if lim:
         run_both(rep, "gen.limits", lim, env, ctx["have_model"])
     oracle(rep, cases + lim + impl_only, listed)
@@ -265,7 +293,8 @@ def run(ctx):
         i = G.vh(ls)
         if ctx["have_model"]:
             m = G.vrun(ls)
-            diff_stream(rep, op, ls, i, m, key)
+            keep = [k for k in range(len(ls)) if not G.unchecked(rep, op, ls[k], i[k], m[k])]
+            diff_stream(rep, op, [ls[k] for k in keep], [i[k] for k in keep], [m[k] for k in keep], key)
     ls = ["gen.romconst"]
     i = G.vh(ls, shards=1)
     if ctx["have_model"]:
